@@ -1,6 +1,8 @@
 """C01 - Connected instances converge on one running Master (per-instance election rule and its guards)."""
 from pyvc.spec import *
 
+GROUP = 'members'   # contracts of one group use each other's contracts at call sites (pyvc/hooks.py contract_for_call)
+
 from contracts.c07 import valid_structure, distinct_entries
 
 STABLE = (SupvisorsInstanceStates.RUNNING, SupvisorsInstanceStates.STOPPED, SupvisorsInstanceStates.ISOLATED)
